@@ -180,16 +180,20 @@ Definition log_op (lg : logs) (o : op) (pre p : post) : logs :=
 
 (* A message that fails (error or panic) leaves no trace, so it cannot break the books.  A burn
    that PANICS is reported all the same: the holder of the whole supply cannot redeem (the portion
-   is computed by dividing by the supply left after the burn).  Panics of swaps on a basket whose
-   reserves are all zero (AverageDisbalance divides by the zero average) fail the transaction
-   without moving value and are left to C06. *)
+   is computed by dividing by the supply left after the burn).  A swap that panics on a basket whose
+   weighted reserves are all zero (AverageDisbalance divides by the zero average) is reported under
+   its own name (C06-class: the transaction fails, no value moves); other swap panics (a slippage fee
+   above 1 makes the pay-out negative) fail the transaction likewise and are not C11's matter. *)
 Fixpoint hist_clauses (lg : logs) (pre : post) (steps : list (op * Z * option post)) : list string :=
   match steps with
   | [] => []
   | (o, st, po) :: r =>
       match po with
       | Some p => (if st =? 0 then op_clauses lg o pre p else ["status"%string]) ++ hist_clauses (log_op lg o pre p) p r
-      | None => (if st =? 2 then (match o with OBurn _ _ _ _ => cl false "panic" "burn" | _ => [] end)
+      | None => (if st =? 2 then (match o with
+                                  | OBurn _ _ _ _ => cl false "panic" "burn"
+                                  | OSwap _ _ _ => cl (negb (value_of (p_bk pre) =? 0)) "panic_zero_reserves" "swap"
+                                  | _ => [] end)
                  else if st =? 1 then [] else ["status"%string])
                 ++ hist_clauses lg pre r
       end
